@@ -8,6 +8,10 @@ THEOREMS = ["TLVerif.Props.C04." + t for t in [
 
 KNOWN_KEY = "codec.x2 cases 33 cases.testDictAny 1 db4d2b2501000000000000000000008007000000"
 
+# thorough tier (goldmaster.tl): WriteJSON of an object that ReadTL2 decoded from an empty body dereferences the nil pointer of a
+# non-optional recursive field (`hren next:(Maybe hren) = Hren;`)
+HREN_KEY = "codec.x2 gold 80 hren 0 7b0a9327"
+
 # deterministic witnesses of the known finding (L2): a non-optional float holding -0.0 is "empty" for the TL2 writer
 NEGZERO = [("cases.testDictAny", 1, "db4d2b25" + "01000000" + "0000000000000080" + "07000000")]
 
@@ -25,7 +29,7 @@ def run(c):
     c.lean(MODULES, THEOREMS, sources=["TLVerif.Codec.TL2", "TLVerif.Codec.TL2Lemmas", "TLVerif.Codec.TL2RoundTrip"])
     model, schemas = t2.prepare(c, corpus(c))
     rng = c.rng
-    per = 30 if c.thorough else 8
+    per = 16 if c.thorough else 8
     replay = set()
     if c.replay:
         for f in c.replay.get("failures", []):
@@ -42,6 +46,8 @@ def run(c):
         if sc.sid == "cases":
             for n, boxed, h in NEGZERO:
                 lines.append("codec.x2 cases %d %s %d %s" % (by_name[n]["idx"], n, boxed, h))
+        if sc.sid == "gold" and "hren" in by_name:
+            lines.append("codec.x2 gold %d hren 0 7b0a9327" % by_name["hren"]["idx"])
         rnd = []
         for inst, it in items:
             for boxed in (0, 1):
@@ -52,6 +58,7 @@ def run(c):
             for _ in range(per // 2):
                 rnd.append(("codec.rand %s %d %s %d" % (sc.sid, inst["idx"], inst["tlname"], rng.below(2 ** 32)), inst))
         for (l, inst), a in zip(rnd, t2.impl_only(sc, [l for l, _ in rnd])):
+            c.count("codec.rand:" + a.split(" ")[0])
             if a.startswith("ok ") and a != "ok werr":
                 lines.append(t2.x2_line(sc, inst, 1, t2.unhex(a[3:])))
         lines = sorted(set(lines))
@@ -81,6 +88,8 @@ def run(c):
         cl = ["codec.c4 " + l.split(" ", 1)[1] for l in lines]
         for l, a in zip(cl, t2.impl_only(sc, cl)):
             c.count("codec.c4:" + a.split(" ")[0])
+            if a in ("panic", "CRASH"):
+                fails.append(("codec.x2 " + l.split(" ", 1)[1], "generated code panics in the chain ReadTL1 -> WriteTL2 -> ReadTL2 -> WriteTL1 / WriteJSON (%s)" % a))
             if not a.startswith("ok "):
                 continue
             o = dict(p.split("=", 1) for p in a.split(" ")[1:])
@@ -99,7 +108,9 @@ def run(c):
         for l, what in fails:
             g = guard.get("codec.g4 " + l.split(" ", 1)[1])
             c.count("c04-fail:" + str(g))
-            if g == "guard 0" and l.split(" ")[1] in ("cases", "casesns", "gold"):
+            if "panics in the chain" in what and l.split(" ")[1] == "gold" and l.split(" ")[3] == "hren":
+                c.oracle_fail(HREN_KEY, what, l)
+            elif g == "guard 0" and l.split(" ")[1] in ("cases", "casesns", "gold"):
                 c.oracle_fail(KNOWN_KEY, what + " [float -0.0 in an empty-test position]", l)
             else:
                 c.oracle_fail(l, what, l)
